@@ -698,6 +698,45 @@ pub fn parent_main(def: &PropDef, tier: Tier) -> i32 {
     }
     let _ = std::fs::remove_dir_all(Path::new(VERIF_ROOT).join("work").join(def.id));
 
+    // ---- committed regression inputs (corpus/<ID>/*.json): the seconds-long replay tier
+    let mut corpus_replayed = 0u64;
+    let cdir = Path::new(VERIF_ROOT).join("corpus").join(def.id);
+    if let Ok(rd) = std::fs::read_dir(&cdir) {
+        let mut files: Vec<PathBuf> = rd.flatten().map(|e| e.path()).filter(|p| p.extension().map(|e| e == "json").unwrap_or(false)).collect();
+        files.sort();
+        for f in files {
+            let body: Value = match std::fs::read(&f).ok().and_then(|b| serde_json::from_slice(&b).ok()) {
+                Some(v) => v,
+                None => continue,
+            };
+            let subname = body["sub"].as_str().unwrap_or("");
+            if let Some(sub) = def.subs.iter().find(|s| s.name == subname) {
+                let dir = work_dir(def.id, 97);
+                let _ = std::fs::remove_dir_all(&dir);
+                set_worker_dir(&dir);
+                for _try in 0..3 {
+                    let out = (sub.replay)(&body["case"]);
+                    for fl in out.fails.iter() {
+                        if known.iter().any(|kk| kk.signature == fl.signature) {
+                            *known_hits.entry(fl.signature.clone()).or_insert(0) += 1;
+                        } else {
+                            failures.push(FailRec {
+                                sub: subname.to_string(),
+                                signature: fl.signature.clone(),
+                                detail: format!("(corpus {}) {}", f.file_name().unwrap().to_string_lossy(), fl.detail),
+                                case: body["case"].clone(),
+                            });
+                        }
+                    }
+                }
+                corpus_replayed += 1;
+                let _ = std::env::set_current_dir(VERIF_ROOT);
+                let _ = std::fs::remove_dir_all(&dir);
+            }
+        }
+    }
+    let _ = std::fs::remove_dir_all(Path::new(VERIF_ROOT).join("work").join(def.id));
+
     // ---- evidence
     let wall = t0.elapsed().as_secs_f64();
     let mut coverage = serde_json::Map::new();
@@ -710,6 +749,7 @@ pub fn parent_main(def: &PropDef, tier: Tier) -> i32 {
     coverage.insert("known_finding_hits".into(), json!(known_hits));
     coverage.insert("excluded_known".into(), json!(excluded));
     coverage.insert("workers".into(), json!(n));
+    coverage.insert("corpus_inputs_replayed".into(), json!(corpus_replayed));
     if !exhaustive.is_empty() {
         coverage.insert("exhaustive_subspace".into(), json!(exhaustive));
     }
